@@ -319,7 +319,15 @@ def run(facts, prop=None):
             # error fields + cursor movement for fixed-width getters
             if m.group(2) == "get" and ty not in ("uint", "int", "f32", "f64"):
                 width = 1 if ty in ("u8", "i8") else int(ty[1:]) // 8
-                problems += check_fixed_getter(facts, b, width, trait_path)
+                fp = check_fixed_getter(facts, b, width, trait_path)
+                if fp:
+                    # the fixed-width fast path may live in a (generic) private helper: judge the inlined views
+                    from .inline import views
+                    for ib in views(facts, b):
+                        if not check_fixed_getter(facts, ib, width, trait_path):
+                            fp = []
+                            break
+                problems += fp
             if problems:
                 res.bad(key, loc, "; ".join(problems), got=sorted(got), expected=sorted(exp))
             else:
@@ -349,7 +357,9 @@ def check_fixed_getter(facts, body, width, trait_path):
     guard is `remaining() < 1`)"""
     probs = []
     n_adv = 0
-    for fb in family_bodies(facts, body):
+    # an inlined view already contains its closures and helpers (with their const generics instantiated)
+    fam = [body] if body._cache.get("inlined_from") else family_bodies(facts, body)
+    for fb in fam:
         eb = ExprBuilder(fb, facts, inline=False)
         for bi, blk in enumerate(fb.blocks):
             if blk["cleanup"]:
